@@ -6,6 +6,7 @@
      4. dot_nd_dispatch         which pairs of shapes reach the branch
      5. examples (non-vacuity), 6. the reuse gap on a strided view (finding F90) and the corners that
         the side conditions dot_nd_extra_reuse / dot_nd_extra_incr exclude.
+     7. zdot_nd_both_refines    WithReuse AND WithIncr: zdot_nd_reuse_refines composed with zstep_sim (Add)
    Final statements: PropC09c.v. *)
 From Coq Require Import Lia ZifyBool.
 From TV Require Import Base Index AP Iter Mem Spec Guards Run Ops Reduce Shapeops Linalg RunZ DotN.
@@ -898,3 +899,121 @@ Lemma dot_nd_extra_incr_unfold σ ta tb i :
   | _, _, _ => false
   end.
 Proof. reflexivity. Qed.
+
+(* ====================================================================================== *)
+(*  7. WithReuse AND WithIncr: the product is delivered into the reuse tensor, which the     *)
+(*     package-level Add (unsafe) then adds into the increment tensor                       *)
+(* ====================================================================================== *)
+(* composition of zdot_nd_reuse_refines with RefineProofs2.zstep_sim for the Add step.  Unlike
+   zdot_nd_incr_refines no shape condition between the increment tensor and the product is needed:
+   zdot_nd_spec_both runs the SPEC's own Add step, which refuses unequal shapes as the MODEL does
+   (zdot_nd_both_shape_example) *)
+Lemma zdot_nd_reuse_out σ ta tb rr σ1 p : zdot_nd σ ta tb (Some rr) = (σ1, RNew Z p) -> p = rr.
+Proof.
+  unfold zdot_nd. intro H.
+  repeat match type of H with
+  | (let '(_, _) := ?x in _) = _ => destruct x
+  | (if ?x then _ else _) = _ => destruct x
+  | match ?x with _ => _ end = _ => destruct x
+  end; try discriminate H; injection H; congruence.
+Qed.
+
+Theorem zdot_nd_both_refines σ ς ta tb rr i o σ' out : R σ ς -> RM σ ->
+  dot_nd_op σ ta tb = Some o -> zguard σ o = GOk -> zextra3 σ o = true ->
+  dot_nd_reuse_plain σ rr (dot_nd_size σ ta tb) = true ->
+  dot_nd_extra_reuse σ ta tb rr = true ->
+  (forall xr, sget ς rr = Some xr -> s_cm xr = false) ->
+  (forall σ1, zdot_nd σ ta tb (Some rr) = (σ1, RNew Z rr) ->
+     zguard σ1 (ZBin 0 i rr MUnsafe true) = GOk /\ zextra_ok σ1 (ZBin 0 i rr MUnsafe true) = true) ->
+  zdot_nd_full σ ta tb (Some rr) (Some i) = (σ', out) ->
+  exists ς', zdot_nd_spec_both ς ta tb rr i = Some (ς', out) /\ R σ' ς' /\ RM σ'.
+Proof.
+  intros HR HRM Ho Hg He Hplain Hextra Hscm Hstep H.
+  unfold zdot_nd_full in H.
+  destruct (zdot_nd σ ta tb (Some rr)) as [σ1 r1] eqn:Ed.
+  destruct (zdot_nd_reuse_refines σ ς ta tb rr o σ1 r1 HR HRM Ho Hg He Hplain Hextra Hscm Ed)
+    as (ς1 & Es & HR1 & HRM1).
+  unfold zdot_nd_spec in Es. unfold zdot_nd_spec_both. rewrite Es.
+  destruct r1 as [| v | p | |]; try (injection H as <- <-; exists ς1; auto).
+  pose proof (zdot_nd_reuse_out σ ta tb rr σ1 p Ed) as ->.
+  destruct (Hstep σ1 eq_refl) as [Hg2 He2].
+  destruct (zstep_model σ1 (ZBin 0 i rr MUnsafe true)) as [σ2 r2] eqn:E2.
+  injection H as <- <-.
+  apply (zstep_sim σ1 ς1 (ZBin 0 i rr MUnsafe true) σ2 r2 HR1 HRM1 eq_refl Hg2 He2 E2).
+Qed.
+
+(* WithReuse into a (2,3) tensor of zeros AND WithIncr into a (2,3) tensor holding 100..600 *)
+Definition dotn_ops_both : list zop :=
+  [ZBase (ONew Z 0 [2; 3; 4] dotn_A24); ZBase (ONew Z 0 [4] [2; 3; 4; 5]);
+   ZBase (ONew Z 0 [2; 3] [0; 0; 0; 0; 0; 0]); ZBase (ONew Z 0 [2; 3] [100; 200; 300; 400; 500; 600])].
+Definition dotn_σb : store Z := fst (zrun_model dotn_ops_both (empty_store Z)).
+Definition dotn_ςb : sstate Z := spec_state_of dotn_ops_both.
+
+Lemma dotn_related_both : R dotn_σb dotn_ςb /\ RM dotn_σb.
+Proof. apply history_related'; vm_compute; repeat split. Qed.
+
+Example zdot_nd_both_example :
+  R dotn_σb dotn_ςb /\ RM dotn_σb /\
+  dot_nd_op dotn_σb 0 1 = Some (ZTensorMul 0 1 [2] [0] 0) /\
+  zguard dotn_σb (ZTensorMul 0 1 [2] [0] 0) = GOk /\ zextra3 dotn_σb (ZTensorMul 0 1 [2] [0] 0) = true /\
+  dot_nd_size dotn_σb 0 1 = 6 /\
+  dot_nd_reuse_plain dotn_σb 2 (dot_nd_size dotn_σb 0 1) = true /\ dot_nd_extra_reuse dotn_σb 0 1 2 = true /\
+  (forall xr, sget dotn_ςb 2 = Some xr -> s_cm xr = false) /\
+  (forall σ1, zdot_nd dotn_σb 0 1 (Some 2%nat) = (σ1, RNew Z 2) ->
+     zguard σ1 (ZBin 0 3 2 MUnsafe true) = GOk /\ zextra_ok σ1 (ZBin 0 3 2 MUnsafe true) = true) /\
+  (let '(σ', r) := zdot_nd_full dotn_σb 0 1 (Some 2%nat) (Some 3%nat) in
+   r = RNew Z 3 /\ length (tens σ') = 4%nat /\
+   option_map (fun d => shp (d_ap d)) (get_t σ' 2) = Some [2; 3] /\
+   map (logical Z σ') [0; 1; 2; 3]%nat
+   = [map Ok dotn_A24; map Ok [2; 3; 4; 5]; map Ok [40; 96; 152; 208; 264; 320];
+      map Ok [140; 296; 452; 608; 764; 920]]) /\
+  match zdot_nd_spec_both dotn_ςb 0 1 2 3 with
+  | Some (ς', r) =>
+    r = RNew Z 3 /\
+    map (obs_spec Z 0 ς') [0; 1; 2; 3]%nat
+    = [([2; 3; 4], dotn_A24); ([4], [2; 3; 4; 5]); ([2; 3], [40; 96; 152; 208; 264; 320]);
+       ([2; 3], [140; 296; 452; 608; 764; 920])]
+  | None => False
+  end.
+Proof.
+  split; [apply dotn_related_both|]. split; [apply dotn_related_both|].
+  split; [vm_compute; reflexivity|]. split; [vm_compute; reflexivity|]. split; [vm_compute; reflexivity|].
+  split; [vm_compute; reflexivity|]. split; [vm_compute; reflexivity|]. split; [vm_compute; reflexivity|].
+  split; [intros xr Hx; vm_compute in Hx; injection Hx as <-; reflexivity|].
+  split.
+  { intros σ1 Hd.
+    assert (E1 : fst (zdot_nd dotn_σb 0 1 (Some 2%nat)) = σ1) by (rewrite Hd; reflexivity).
+    rewrite <- E1. vm_compute. split; reflexivity. }
+  vm_compute. repeat split.
+Qed.
+
+(* no dot_nd_extra_incr here: an increment tensor of shape (3,2) (dotn_σ's third tensor as increment tensor,
+   a fourth (2,3) tensor as reuse tensor) is refused by the Add step on BOTH sides; the reuse tensor holds
+   the product, the increment tensor is unchanged *)
+Definition dotn_ops_both_sh : list zop :=
+  [ZBase (ONew Z 0 [2; 3; 4] dotn_A24); ZBase (ONew Z 0 [4] [2; 3; 4; 5]);
+   ZBase (ONew Z 0 [2; 3] [0; 0; 0; 0; 0; 0]); ZBase (ONew Z 0 [3; 2] [100; 200; 300; 400; 500; 600])].
+Definition dotn_σbs : store Z := fst (zrun_model dotn_ops_both_sh (empty_store Z)).
+Definition dotn_ςbs : sstate Z := spec_state_of dotn_ops_both_sh.
+
+Lemma dotn_related_both_sh : R dotn_σbs dotn_ςbs /\ RM dotn_σbs.
+Proof. apply history_related'; vm_compute; repeat split. Qed.
+
+Example zdot_nd_both_shape_example :
+  R dotn_σbs dotn_ςbs /\ RM dotn_σbs /\
+  (let σ1 := fst (zdot_nd dotn_σbs 0 1 (Some 2%nat)) in
+   snd (zdot_nd dotn_σbs 0 1 (Some 2%nat)) = RNew Z 2 /\
+   zguard σ1 (ZBin 0 3 2 MUnsafe true) = GOk /\ zextra_ok σ1 (ZBin 0 3 2 MUnsafe true) = true) /\
+  (let '(σ', r) := zdot_nd_full dotn_σbs 0 1 (Some 2%nat) (Some 3%nat) in
+   r = RErr Z /\
+   map (logical Z σ') [2; 3]%nat = [map Ok [40; 96; 152; 208; 264; 320]; map Ok [100; 200; 300; 400; 500; 600]]) /\
+  match zdot_nd_spec_both dotn_ςbs 0 1 2 3 with
+  | Some (ς', r) =>
+    r = RErr Z /\
+    map (obs_spec Z 0 ς') [2; 3]%nat
+    = [([2; 3], [40; 96; 152; 208; 264; 320]); ([3; 2], [100; 200; 300; 400; 500; 600])]
+  | None => False
+  end.
+Proof.
+  split; [apply dotn_related_both_sh|]. split; [apply dotn_related_both_sh|]. vm_compute. repeat split.
+Qed.
